@@ -44,6 +44,7 @@ func generateInitiateTag() uint32 {
 var (
 	ErrChunk                         = errors.New("abort chunk, with following errors")
 	ErrShutdownNonEstablished        = errors.New("shutdown called in non-established state")
+	ErrShutdownIncomplete            = errors.New("association closed before the shutdown sequence completed")
 	ErrAssociationClosedBeforeConn   = errors.New("association closed before connecting")
 	ErrAssociationClosed             = errors.New("association closed")
 	ErrSilentlyDiscard               = errors.New("silently discard")
@@ -266,6 +267,7 @@ type Association struct {
 	willSendShutdownAck      bool
 	willSendShutdownComplete bool
 	shutdownCompletePending  bool
+	shutdownCompleted        bool
 
 	willSendAbort      bool
 	willSendAbortCause errorCause
@@ -1038,6 +1040,15 @@ func (a *Association) Shutdown(ctx context.Context) error {
 
 	select {
 	case <-a.closeWriteLoopCh:
+		// The write loop also ends when the transport fails, the peer aborts or
+		// Close is called: report success only if the shutdown sequence ran to its end.
+		a.lock.RLock()
+		completed := a.shutdownCompleted
+		a.lock.RUnlock()
+		if !completed {
+			return fmt.Errorf("%w: %s", ErrShutdownIncomplete, a.name)
+		}
+
 		return nil
 	case <-ctx.Done():
 		return ctx.Err()
@@ -3357,6 +3368,7 @@ func (a *Association) handleShutdownAck(_ *chunkShutdownAck) {
 		a.willSendShutdownAck = false
 		a.shutdownCompletePending = true
 		a.willSendShutdownComplete = true
+		a.shutdownCompleted = true
 
 		a.awakeWriteLoop()
 	}
@@ -3366,6 +3378,7 @@ func (a *Association) handleShutdownComplete(_ *chunkShutdownComplete) error {
 	state := a.getState()
 	if state == shutdownAckSent {
 		a.t2Shutdown.stop()
+		a.shutdownCompleted = true
 
 		return a.close()
 	}
